@@ -7,6 +7,7 @@ import (
 
 	"github.com/opsidian/parsley/parsley"
 
+	"verifharness/internal/refsem"
 	"verifharness/internal/run"
 )
 
@@ -99,6 +100,38 @@ func c06case(c GCase, a *run.Acc, variant int) {
 		failedAt[at.Pos][at.What] = true
 	}
 	a.Count("failed terminal/End attempts logged", int64(nTerm))
+	// the attempts themselves against the MEANING of the grammar: the furthest offset at which a complete exploration
+	// tries a terminal (or the end of input) that does not match, derived from the reference's ends table. An
+	// implementation that tries less - a cache hit that should have been a miss - reports an error consistent with its
+	// own attempts and still falls short of this (S18-C06). Base operators and stratified grammars only.
+	// (not with names on Optionals: on this library a named Optional fails when its operand does - ReturnError drops a
+	// result that comes with an error, section 9a -, so such a build parses another language than the grammar's)
+	if !c.G.HasExtendedOps() && !o.NameOptionals {
+		if _, _, strat := c.G.Strata(); strat {
+			rfe := &refsem.Ref{G: c.G, In: c.In, EndsOnly: true, Cap: 100000}
+			if rfe.Compute() {
+				if fref, ok := rfe.FurthestFailedTerminal(c.NT); ok {
+					fobs := -1
+					for _, at := range r.Log {
+						if at.Failed && at.Terminal && at.Pos > fobs {
+							fobs = at.Pos
+						}
+					}
+					a.Count("cases whose attempts were compared with the reference exploration", 1)
+					switch {
+					case fobs < fref:
+						d["error"] = r.Err.Error()
+						d["furthest_failed_terminal_attempt_observed"] = fobs
+						d["furthest_failed_terminal_attempt_of_a_complete_exploration"] = fref
+						a.Violate("attempts-fall-short-of-a-complete-exploration", "attempts-fall-short-of-a-complete-exploration", d)
+						return
+					case fobs > fref:
+						a.Count("cases in which curtailed levels tried terminals beyond the reference exploration (allowed)", 1)
+					}
+				}
+			}
+		}
+	}
 	if F < 0 {
 		F = 0
 		a.Count("cases without any failed terminal attempt", 1)
